@@ -226,13 +226,29 @@ class _TierExpired(CacheGetFailure):
 
 
 class ScriptedCache(Cache):
-    """A backend that follows the Cache contract but misbehaves per script (C17)."""
+    """A backend that follows the Cache contract but misbehaves per script (C17).  Every third one (by its number) is a
+    fault-injecting FRONT over a real `MemoryCache`: it keeps no entries of its own, answers the scripted faults itself and
+    passes every other call on to the MemoryCache behind it."""
 
     def __init__(self, cid):
         self.cid = cid
         self.store = {}
         self.script = []
         self._tier = NoCache()
+        self._mem = MemoryCache() if cid % 3 == 2 else None
+
+    def clear(self):
+        self.store.clear()
+        if self._mem is not None:
+            self._mem._cache.clear()
+
+    def _has(self, fp, evaluatable, options):
+        return self._mem.exists(evaluatable, options) if self._mem is not None else fp in self.store
+
+    def _drop(self, fp):
+        self.store.pop(fp, None)
+        if self._mem is not None:
+            self._mem._cache.pop(fp, None)
 
     def _next(self):
         return self.script.pop(0) if self.script else "behave"
@@ -264,9 +280,17 @@ class ScriptedCache(Cache):
             self._log("get", fp, "fault")
             raise self._failure(evaluatable, options)
         if f == "forget":
-            self.store.pop(fp, None)
+            self._drop(fp)
             self._log("get", fp, "fault")
             raise self._failure(evaluatable, options)
+        if self._mem is not None:
+            try:
+                v = self._mem.get(evaluatable, options)
+            except CacheGetFailure:
+                self._log("get", fp, "miss")
+                raise self._failure(evaluatable, options)
+            self._log("get", fp, "hit")
+            return v
         if fp in self.store:
             self._log("get", fp, "hit")
             return self.store[fp]
@@ -285,10 +309,10 @@ class ScriptedCache(Cache):
             self._log("exists", fp, "fault")
             return True
         if f == "forget":
-            self.store.pop(fp, None)
+            self._drop(fp)
             self._log("exists", fp, "fault")
             return False
-        hit = fp in self.store
+        hit = self._has(fp, evaluatable, options)
         self._log("exists", fp, "hit" if hit else "miss")
         return hit
 
@@ -298,7 +322,10 @@ class ScriptedCache(Cache):
         if f in ("miss", "forget"):
             self._log("set", fp, "fault")
             return
-        self.store[fp] = value
+        if self._mem is not None:
+            self._mem.set(evaluatable, options, value)
+        else:
+            self.store[fp] = value
         self._log("set", fp, "stored")
 
 
@@ -878,7 +905,8 @@ def run_program(prog):
         for n in prog.get("nodes", []):
             # constants are built where they are used (the public API wraps them itself)
             if n["k"] != "value" and not n.get("h") and not (n["k"] == "template" and not n.get("params")) \
-                    and not (n["k"] == "funapp" and n.get("factory")) and not n.get("nsmember"):
+                    and not (n["k"] == "funapp" and n.get("factory")) and not n.get("nsmember") and not n.get("lazy"):
+                # (a lazy node is the result of a later construction step — `with_options` — and exists once that ran)
                 g.node(n["id"])
     except Exception as e:  # construction failure is an observation of its own
         built_err = [type(e).__name__, str(e)[:200]]
@@ -912,6 +940,11 @@ def run_op(g, op):
 def _run_mutator(g, op, name):
     try:
         if name == "register":
+            # (a dataset that owns this table is built first — registering on a dataset defined but not yet used)
+            for nid, nd in g.nodes.items():
+                if nd["k"] == "dataset" and not nd.get("lazy") and g.dss.get(nd["ds"], {}).get("ov") == op["ov"] \
+                        and g.ds_objs.get(nd["ds"]) is None:
+                    g.node(nid)
             ov = g.overloaded(op["ov"])
             tgt = None
             for dsid, d in g.dss.items():
@@ -949,7 +982,9 @@ def _run_mutator(g, op, name):
             for c in g.caches.values():
                 if isinstance(c, MemoryCache):
                     dict.clear(c._cache)
-                elif isinstance(c, (ScriptedCache, GetOnlyCache)):
+                elif isinstance(c, ScriptedCache):
+                    c.clear()
+                elif isinstance(c, GetOnlyCache):
                     c.store.clear()
         elif name == "script":
             g.cache(op["cache"]).script = list(op["faults"])
